@@ -243,6 +243,10 @@ def run(ctx: Ctx):
         ctx.case("history " + " ".join(hist), sample_every=50)
         ctx.count(f"history len={len(hist)}")
 
+    import extra_oracles as _xo
+
+    _xo.api_history_and_dtype(ctx, "C04")
+
     ctx.notes["rule"] = ("tables: every admissible triple with l ≤ %d (+ seeded sample up to 11 in quick) and so3 generators l ≤ 11, every entry compared; "
                          "histories: seeded op sequences over call/mutate/module-construction; a case is non-trivial when the table has non-zero entries") % lmax_all
     ctx.assumptions += [
